@@ -36,6 +36,9 @@ pub enum Target {
     TagEn,
     /// a map visitor that reads entries until it has met the key `x` and returns then
     UntilX,
+    /// a sequence of untyped values each of which falls back to null when it cannot be read: an error met deep
+    /// inside an element (a syntax error included) is swallowed there
+    LenientJsonVec,
     /// a map visitor that keeps asking for entries after it has been told there are none (serde does not
     /// forbid it; a fused access answers `None` again)
     GreedyMap,
@@ -158,7 +161,8 @@ impl<'de> Deserialize<'de> for RcS {
 
 pub type RcMapT = BTreeMap<String, RcS>;
 
-pub const ALL_TARGETS: [Target; 22] = [
+pub const ALL_TARGETS: [Target; 23] = [
+    Target::LenientJsonVec,
     Target::GreedyMap,
     Target::UntilX,
     Target::FirstEntry,
@@ -267,6 +271,7 @@ macro_rules! with_target {
             $crate::types::Target::TagEn => $f::<$crate::types::TagEn>($($args),*),
             $crate::types::Target::UntilX => $f::<$crate::types::UntilX>($($args),*),
             $crate::types::Target::GreedyMap => $f::<$crate::types::GreedyMap>($($args),*),
+            $crate::types::Target::LenientJsonVec => $f::<Vec<$crate::types::Lenient<serde_json::Value>>>($($args),*),
         }
     };
 }
